@@ -68,6 +68,78 @@ def rule_ignored(run, fx, rule, select, floors=True, floor_n=1):
     return n
 
 
+# ---- R-OFF: an offset that is read is used to locate something -----------------------------------------------------------------------
+CMP_OPS = ("Lt", "Le", "Gt", "Ge", "Eq", "Ne")
+COMPARING = ("::eq", "::ne", "::lt", "::le", "::gt", "::ge", "::cmp", "::partial_cmp", "::check", "::check_index", "::check_version", "::contains")
+
+
+def _locating_use(b, v):
+    """does the value of local v reach something that locates data or keeps the value - an argument of any call other than a comparison /
+    check, a field of an aggregate, the result - through copies, casts, conversions and arithmetic? Comparisons yield a bool and end the
+    flow: an offset that is only compared locates nothing"""
+    tainted, todo = set(), [v]
+    while todo:
+        l = todo.pop()
+        if l in tainted:
+            continue
+        tainted.add(l)
+        if l == 0:
+            return True
+        for bi, kind, item in guards.uses_of_local(b, l):
+            if kind == "stmt":
+                rv = item["rv"]
+                if rv["k"] == "agg":
+                    return True
+                if rv["k"] == "bin" and str(rv.get("bop", "")).replace("WithOverflow", "") in CMP_OPS:
+                    continue
+                if item["p"]["p"]:
+                    return True         # stored into a field of something
+                todo.append(item["p"]["l"])
+            elif kind == "call":
+                p = str(item["callee"].get("path") or "")
+                if p.endswith(COMPARING):
+                    continue
+                conv = p.endswith(("From::from", "Into::into", "TryFrom::try_from", "TryInto::try_into", "Try::branch", "::unwrap", "::expect", "::ok_or", "::ok",
+                                   "::map_err", "::checked_add", "::checked_sub", "::checked_mul", "::saturating_sub", "::saturating_add", "::wrapping_add",
+                                   "::wrapping_sub", "::min", "::max", "SafeFrom::safe_from", "::safe_from", "Clone::clone"))
+                if not conv:
+                    return True         # handed to a function that can use it (scope.offset(..), read_at, a constructor, ...)
+                if item.get("dest") and not item["dest"]["p"]:
+                    todo.append(item["dest"]["l"])
+                    todo.extend(guards.unwrapped_value_locals(b, item["dest"]["l"]))
+            elif kind == "switch":
+                continue
+    return False
+
+
+def rule_offsets(run, fx, rule, select, floors=True, floor_n=1):
+    run.rule(rule, "every value a reader takes from the font into a local named as an offset is used to locate data or is kept: through copies, casts, "
+                   "conversions and arithmetic it reaches an argument of a call other than a comparison or validity check, a field of the value that is "
+                   "built, or the result. An offset that only takes part in comparisons (a range check) locates nothing: the data it points to is then "
+                   "taken from somewhere else, usually from wherever the cursor happens to be")
+    n = 0
+    for b in fx.bodies:
+        if not select(b):
+            continue
+        for bi, t in b.calls():
+            if not READ.search(t["callee"].get("path") or "") or t["dest"]["p"] or not b.reachable(bi):
+                continue
+            for v in guards.unwrapped_value_locals(b, t["dest"]["l"]):
+                for name, nuses in _final_named(b, v):
+                    if "offset" not in (name or "") or nuses == 0:
+                        continue        # never used at all: R-IGN's business
+                    # the named local that received the value
+                    named = [l for l in range(b.arg_count + 1, len(b.locals)) if b.local_name(l) == name]
+                    n += 1
+                    if any(_locating_use(b, l) for l in named):
+                        run.ok(rule, "%s: %s locates data or is kept" % (b.root, name))
+                    else:
+                        run.fail(rule, "offset-unused|%s" % b.root, "%s reads `%s` from the font and only compares it: nothing is located with it" % (b.path, name), b.loc(t))
+    if floors and floor_n:
+        run.floor(rule, "offsets read into named locals", n, floor_n)
+    return n
+
+
 # property -> (source files whose readers it owns, ignored reads counted there on the pinned tree)
 SCOPE = {
     "C02": (("src/tables/morx.rs",), 4),
@@ -81,6 +153,11 @@ SCOPE = {
 }
 
 
+# offsets read into named locals, counted on the pinned tree (cmap.rs reads its offsets through records: none)
+OFFSETS = {"C02": 6, "C04": 11, "C05": 14, "C11": 2, "C12": 12, "C13": 1, "C15": 1}
+
+
 def run_for(run, fx, prop, floors=True):
     files, n = SCOPE[prop]
+    rule_offsets(run, fx, "R-OFF", lambda b: b.file.startswith(files) and not b.exp, floors, OFFSETS.get(prop, 0))
     return rule_ignored(run, fx, "R-IGN", lambda b: b.file.startswith(files), floors, n)
